@@ -144,6 +144,10 @@ fn main() -> Result<()> {
         if source == &target_base {
             return Err(XcpError::InvalidSource("Source is same as destination").into());
         }
+
+        if source.is_dir() && target_base.exists() && !target_base.is_dir() {
+            return Err(XcpError::InvalidDestination("Cannot copy a directory to a file.").into());
+        }
     }
 
 
